@@ -1,3 +1,509 @@
 package main
 
-func checkMain(args []string) int { return 2 }
+import (
+	"encoding/json"
+	"flag"
+	"fmt"
+	"os"
+	"os/exec"
+	"path/filepath"
+	"regexp"
+	"sort"
+	"strconv"
+	"strings"
+	"time"
+)
+
+const verifDir = "/verif"
+
+type KnownFinding struct {
+	Property   string `json:"property"`
+	Obligation string `json:"obligation"` // obligation group name (regexp allowed when prefixed with ~)
+	Witness    string `json:"witness"`    // what fails (input / call site / history)
+	Status     string `json:"status"`     // "known" or "fixed"
+	Commit     string `json:"commit,omitempty"`
+	Replay     string `json:"replay,omitempty"`
+	Note       string `json:"note,omitempty"`
+}
+
+type ReplaySpec struct {
+	Match   string `json:"match"`   // regexp over obligation group name
+	Pkg     string `json:"pkg"`     // package dir relative to /repo
+	File    string `json:"file"`    // test file under /verif/replay
+	Run     string `json:"run"`     // -run regexp
+	Tags    string `json:"tags,omitempty"`
+}
+
+type group struct {
+	Name    string
+	Func    string
+	Kind    string
+	Pos     string
+	Obs     []*Ob
+	Status  string // discharged / refuted / unknown / timeout / error / missing / unbound
+	Solver  string
+	TimeS   float64
+}
+
+var reInst = regexp.MustCompile(`@\d+$`)
+
+func groupName(ob *Ob) string { return reInst.ReplaceAllString(ob.Name, "") }
+
+func loadJSON(path string, v interface{}) error {
+	b, err := os.ReadFile(path)
+	if err != nil {
+		return err
+	}
+	return json.Unmarshal(b, v)
+}
+
+func hasProp(props []string, p string) bool {
+	for _, q := range props {
+		if q == p {
+			return true
+		}
+	}
+	return false
+}
+
+func checkMain(args []string) int {
+	fs := flag.NewFlagSet("check", flag.ExitOnError)
+	tier := fs.String("tier", "quick", "quick|thorough")
+	writeLedger := fs.Bool("write-ledger", false, "record the discharged obligation groups of this run in ledger.json")
+	fs.Parse(args)
+	if fs.NArg() < 1 {
+		fmt.Fprintln(os.Stderr, "usage: govc check [--tier quick|thorough] <property>")
+		return 2
+	}
+	if t := os.Getenv("VERIF_TIER"); t != "" && *tier == "quick" {
+		*tier = t
+	}
+	prop := fs.Arg(0)
+	seed := 0
+	if s := os.Getenv("VERIF_SEED"); s != "" {
+		seed, _ = strconv.Atoi(s)
+	}
+	t0 := time.Now()
+	timeout := 10
+	if *tier == "thorough" {
+		timeout = 60
+	}
+	outDir := filepath.Join(verifDir, "out", prop)
+	os.RemoveAll(outDir)
+	os.MkdirAll(outDir, 0755)
+	evPath := filepath.Join(verifDir, "evidence", prop+".json")
+	os.MkdirAll(filepath.Dir(evPath), 0755)
+
+	P, err := LoadProgram([]string{"./..."})
+	if err != nil {
+		fmt.Fprintln(os.Stderr, "govc: cannot load /repo with -tags verif:", err)
+		// a tree that does not build cannot be judged
+		return 2
+	}
+	C, err := ParseContracts(P)
+	if err != nil {
+		fmt.Fprintln(os.Stderr, "govc: contract error:", err)
+		return 2
+	}
+	loadS := time.Since(t0).Seconds()
+
+	var results []*FuncResult
+	var assumedContracts []string
+	for _, name := range C.Order {
+		con := C.Funcs[name]
+		if !hasProp(con.Props, prop) {
+			continue
+		}
+		if con.Assumed {
+			assumedContracts = append(assumedContracts, name)
+			continue
+		}
+		fn := P.Lookup(name)
+		if fn == nil {
+			results = append(results, &FuncResult{Name: name, Contract: con, Err: "function not found in the current tree (contract cannot be bound)"})
+			continue
+		}
+		results = append(results, VerifyFunc(P, C, fn, con))
+	}
+	for _, lm := range C.Lemmas {
+		if hasProp(lm.Props, prop) {
+			results = append(results, VerifyLemma(P, C, lm))
+		}
+	}
+	var all []*Ob
+	for _, r := range results {
+		all = append(all, r.Obs...)
+	}
+	genS := time.Since(t0).Seconds() - loadS
+	os.Setenv("VERIF_SOLVER_CACHE", "")
+	SolveAll(all, outDir, timeout)
+	solveS := time.Since(t0).Seconds() - loadS - genS
+
+	// group
+	groups := map[string]*group{}
+	var order []string
+	for _, r := range results {
+		for _, ob := range r.Obs {
+			if !hasProp(ob.Props, prop) {
+				continue
+			}
+			gn := groupName(ob)
+			g := groups[gn]
+			if g == nil {
+				g = &group{Name: gn, Func: ob.Func, Kind: ob.Kind, Pos: ob.Pos, Status: "discharged"}
+				groups[gn] = g
+				order = append(order, gn)
+			}
+			g.Obs = append(g.Obs, ob)
+			g.TimeS += ob.TimeS
+			if ob.Status != "discharged" && g.Status == "discharged" {
+				g.Status = ob.Status
+				g.Pos = ob.Pos
+			}
+			if g.Solver == "" || ob.Status != "discharged" {
+				g.Solver = ob.Solver
+			}
+		}
+	}
+	// functions outside the subset / unbound contracts: every ledger group of that function is unbound
+	var ledger map[string][]string
+	loadJSON(filepath.Join(verifDir, "ledger.json"), &ledger)
+	errFuncs := map[string]string{}
+	for _, r := range results {
+		if r.Err != "" {
+			errFuncs[r.Name] = r.Err
+		}
+	}
+	for _, gn := range ledger[prop] {
+		fn := gn
+		if i := strings.Index(gn, "/"); i >= 0 {
+			fn = gn[:i]
+		}
+		// container/heap.down/post#x : function name itself may contain '/'
+		fn = ledgerFunc(gn)
+		if k := ledgerKind(gn); k == "nopanic" || k == "overflow" || strings.HasPrefix(k, "pre@") {
+			// safety side-conditions come and go with harmless edits; their absence is not a finding
+			if _, bad := errFuncs[fn]; !bad {
+				continue
+			}
+		}
+		if _, ok := groups[gn]; !ok {
+			st := "missing"
+			if _, bad := errFuncs[fn]; bad {
+				st = "unbound"
+			}
+			groups[gn] = &group{Name: gn, Func: fn, Kind: "ledger", Status: st}
+			order = append(order, gn)
+		}
+	}
+	for fn, e := range errFuncs {
+		// make sure an engine failure on a function is visible even with an empty ledger
+		gn := fn + "/engine"
+		groups[gn] = &group{Name: gn, Func: fn, Kind: "engine", Status: "unbound", Pos: e}
+		order = append(order, gn)
+	}
+
+	var known []KnownFinding
+	loadJSON(filepath.Join(verifDir, "known_findings.json"), &known)
+	var replays []ReplaySpec
+	loadJSON(filepath.Join(verifDir, "replay", "replays.json"), &replays)
+
+	nOb, nDis := 0, 0
+	byBackend := map[string]int{}
+	vacuous := 0
+	var violations, knownHit []string
+	var samples []map[string]interface{}
+	solverTime := 0.0
+	for _, gn := range order {
+		g := groups[gn]
+		if g.Kind == "cover" {
+			for _, ob := range g.Obs {
+				if ob.Status == "vacuous" {
+					vacuous++
+					fmt.Printf("VACUOUS: %s (%s): the assumptions of this function are contradictory\n", ob.Name, ob.Pos)
+				}
+			}
+			continue
+		}
+		nOb++
+		for _, ob := range g.Obs {
+			solverTime += ob.TimeS
+			if ob.Status == "discharged" {
+				byBackend[strings.TrimSuffix(ob.Solver, "(cached)")]++
+			}
+		}
+		if g.Status == "discharged" {
+			nDis++
+			if len(samples) < 6 && len(g.Obs) > 0 && g.Obs[0].Query != "" {
+				samples = append(samples, map[string]interface{}{"obligation": g.Name, "instances": len(g.Obs), "pos": g.Pos,
+					"solver": g.Solver, "smt_bytes": len(g.Obs[0].Query)})
+			}
+			continue
+		}
+		// not discharged
+		if kf := matchKnown(known, prop, g.Name); kf != nil {
+			fmt.Printf("KNOWN-FINDING: property=%s %s %s\n", prop, g.Name, kf.Witness)
+			knownHit = append(knownHit, g.Name)
+			continue
+		}
+		rp := writeReplay(outDir, prop, g, replays, errFuncs)
+		line := fmt.Sprintf("VIOLATION property=%s replay=%s obligation=%s status=%s", prop, rp.path, g.Name, g.Status)
+		if !rp.failingInput {
+			line += " no-failing-input-found"
+		}
+		fmt.Println(line)
+		violations = append(violations, g.Name)
+	}
+	sort.Strings(violations)
+
+	// evidence
+	var funcs, inl, assumes, outside []string
+	inlSet, asSet := map[string]bool{}, map[string]bool{}
+	for _, r := range results {
+		funcs = append(funcs, r.Name)
+		if r.Err != "" {
+			outside = append(outside, r.Name+": "+truncate(r.Err, 200))
+		}
+		for _, i := range r.Inlined {
+			inlSet[i] = true
+		}
+		for _, a := range r.Assumed {
+			asSet[a] = true
+		}
+		if r.Contract != nil {
+			for _, t := range r.Contract.Trust {
+				asSet["trust "+t+" ("+r.Name+")"] = true
+			}
+		}
+	}
+	inl = sortedKeys(inlSet)
+	assumes = sortedKeys(asSet)
+	for _, a := range assumedContracts {
+		assumes = append(assumes, "assumed contract (dependency, body not verified): "+a)
+	}
+	assumes = append(assumes,
+		"sequential semantics: sync.Mutex/RWMutex/WaitGroup are no-ops and sync/atomic operations are plain loads/stores",
+		"termination is not proved (partial correctness)",
+		"go/packages + go/ssa (x/tools v0.29.0) produce a faithful SSA of the source; the generator's symbolic semantics of SSA is trusted",
+		"integers: int-mode functions use mathematical integers with wrap-around for unsigned operations and an overflow obligation on every signed operation; bv-mode functions use exact 64/32/16/8-bit vectors",
+		"floats are an uninterpreted sort; only the strict-weak-order axioms on non-NaN values are assumed where `trust floatorder` is declared",
+		"slices: offset+capacity <= 2^48 (amd64 address space)")
+	if len(samples) == 0 {
+		samples = append(samples, map[string]interface{}{"note": "no discharged obligation to sample"})
+	}
+	ev := map[string]interface{}{
+		"property_id": prop,
+		"tier":        *tier,
+		"seed":        seed,
+		"level":       "proof",
+		"coverage": map[string]interface{}{
+			"obligations":  nOb,
+			"discharged":   nDis + len(knownHit)*0,
+			"checker_cmd":  fmt.Sprintf("/verif/bin/govc check --tier %s %s  (z3 4.8.12, z3 5.1.0, cvc5 1.0 raced per obligation, %ds each)", *tier, prop, timeout),
+			"trusted_base": []string{"z3 4.8.12 / z3 5.1.0 / cvc5 1.0.x answer unsat soundly", "golang.org/x/tools v0.29.0 go/ssa", "govc symbolic semantics (this repository, /verif/engine)"},
+			"samples":      samples,
+			"functions_under_contract": funcs,
+			"inlined_functions_verified_in_place": inl,
+			"by_backend":   byBackend,
+			"solver_time_s": round2(solverTime),
+			"load_s":       round2(loadS),
+			"generate_s":   round2(genS),
+			"solve_wall_s": round2(solveS),
+			"instances":    len(all),
+			"known_findings_hit": knownHit,
+			"violations":   violations,
+			"outside_subset": outside,
+			"cover_checks_vacuous": vacuous,
+		},
+		"assumptions": assumes,
+		"wall_s":      round2(time.Since(t0).Seconds()),
+		"violations":  len(violations),
+	}
+	b, _ := json.MarshalIndent(ev, "", " ")
+	os.WriteFile(evPath, b, 0644)
+
+	fmt.Printf("govc: %s tier=%s: %d functions, %d obligations (%d instances), discharged %d, known findings %d, violations %d; load %.1fs gen %.1fs solve %.1fs\n",
+		prop, *tier, len(results), nOb, len(all), nDis, len(knownHit), len(violations), loadS, genS, solveS)
+	fmt.Printf("evidence: %s\n", evPath)
+
+	if *writeLedger {
+		if ledger == nil {
+			ledger = map[string][]string{}
+		}
+		var names []string
+		for _, gn := range order {
+			g := groups[gn]
+			if g.Kind != "cover" && g.Kind != "ledger" && g.Kind != "engine" && g.Status == "discharged" {
+				names = append(names, gn)
+			}
+		}
+		sort.Strings(names)
+		ledger[prop] = names
+		lb, _ := json.MarshalIndent(ledger, "", " ")
+		os.WriteFile(filepath.Join(verifDir, "ledger.json"), lb, 0644)
+	}
+	if nOb == 0 {
+		fmt.Println("govc: no obligations generated for", prop, "- refusing to report success")
+		return 2
+	}
+	if vacuous > 0 {
+		return 2
+	}
+	if len(violations) > 0 {
+		return 1
+	}
+	return 0
+}
+
+func round2(f float64) float64 { return float64(int(f*100+0.5)) / 100 }
+
+func ledgerFunc(gn string) string {
+	// group name = <func>/<kind>[#label]; func may contain '/' (import paths) so cut at the last '/'
+	if i := strings.LastIndex(gn, "/"); i >= 0 {
+		return gn[:i]
+	}
+	return gn
+}
+
+func matchKnown(known []KnownFinding, prop, name string) *KnownFinding {
+	for i := range known {
+		k := &known[i]
+		if k.Property != prop || k.Status != "known" {
+			continue
+		}
+		if strings.HasPrefix(k.Obligation, "~") {
+			if ok, _ := regexp.MatchString(k.Obligation[1:], name); ok {
+				return k
+			}
+		} else if k.Obligation == name {
+			return k
+		}
+	}
+	return nil
+}
+
+type replayOut struct {
+	path         string
+	failingInput bool
+}
+
+func writeReplay(outDir, prop string, g *group, replays []ReplaySpec, errFuncs map[string]string) replayOut {
+	base := mangle(strings.ReplaceAll(g.Name, "/", "_"))
+	path := filepath.Join(outDir, base+".replay.json")
+	rec := map[string]interface{}{"property": prop, "obligation": g.Name, "function": g.Func, "kind": g.Kind, "status": g.Status, "pos": g.Pos}
+	if e, ok := errFuncs[g.Func]; ok {
+		rec["engine"] = e
+	}
+	var inst []map[string]interface{}
+	for _, ob := range g.Obs {
+		if ob.Status == "discharged" {
+			continue
+		}
+		m := map[string]interface{}{"instance": ob.Name, "status": ob.Status, "solver": ob.Solver, "pos": ob.Pos, "path": ob.Path, "detail": ob.Detail}
+		if ob.Query != "" {
+			qf := filepath.Join(outDir, mangle(strings.ReplaceAll(ob.Name, "/", "_"))+".smt2")
+			m["smt_file"] = qf
+			if ob.Status == "refuted" {
+				m["model"] = getModel(ob.Query, outDir)
+			}
+		}
+		inst = append(inst, m)
+		if len(inst) >= 4 {
+			break
+		}
+	}
+	rec["failed_instances"] = inst
+	out := replayOut{path: path}
+	for _, rs := range replays {
+		ok, _ := regexp.MatchString(rs.Match, g.Name)
+		if !ok {
+			continue
+		}
+		res, failed := runReplay(rs)
+		rec["replay_test"] = filepath.Join(verifDir, "replay", rs.File)
+		rec["replay_cmd"] = res.cmd
+		rec["replay_output"] = truncate(res.out, 4000)
+		rec["replay_failed_on_real_code"] = failed
+		if failed {
+			out.failingInput = true
+		}
+		break
+	}
+	b, _ := json.MarshalIndent(rec, "", " ")
+	os.WriteFile(path, b, 0644)
+	return out
+}
+
+type replayRes struct {
+	cmd string
+	out string
+}
+
+// runReplay injects an in-package test with -overlay (nothing is written to /repo) and runs it.
+func runReplay(rs ReplaySpec) (replayRes, bool) {
+	tmp, err := os.MkdirTemp("", "govc-replay")
+	if err != nil {
+		return replayRes{out: err.Error()}, false
+	}
+	defer os.RemoveAll(tmp)
+	ov := map[string]map[string]string{"Replace": {
+		filepath.Join(repoDir(), rs.Pkg, "zz_verif_replay_test.go"): filepath.Join(verifDir, "replay", rs.File)}}
+	ob, _ := json.Marshal(ov)
+	ovf := filepath.Join(tmp, "ov.json")
+	os.WriteFile(ovf, ob, 0644)
+	args := []string{"test", "-overlay", ovf, "-vet=off", "-count=1", "-timeout", "120s", "-run", rs.Run}
+	if rs.Tags != "" {
+		args = append(args, "-tags", rs.Tags)
+	}
+	args = append(args, "./"+rs.Pkg)
+	cmd := exec.Command("go", args...)
+	cmd.Dir = repoDir()
+	cmd.Env = append(os.Environ(), "GOFLAGS=-mod=mod", "GOPROXY=off", "GOSUMDB=off", "GOTOOLCHAIN=local", "GOCACHE="+goCache())
+	outb, err := cmd.CombinedOutput()
+	res := replayRes{cmd: "go " + strings.Join(args, " "), out: string(outb)}
+	failed := err != nil && strings.Contains(string(outb), "--- FAIL")
+	return res, failed
+}
+
+func goCache() string {
+	if c := os.Getenv("GOCACHE"); c != "" {
+		return c
+	}
+	h, _ := os.UserHomeDir()
+	return filepath.Join(h, ".cache", "go-build")
+}
+
+// getModel asks z3 for a model of a refuted obligation (candidate counterexample).
+func getModel(query, outDir string) string {
+	q := strings.Replace(query, "(check-sat)", "(check-sat)\n(get-model)", 1)
+	f := filepath.Join(outDir, "model_"+hashStr(query)+".smt2")
+	os.WriteFile(f, []byte(q), 0644)
+	defer os.Remove(f)
+	out, _ := exec.Command("z3-new", "-T:10", f).CombinedOutput()
+	s := string(out)
+	// keep only scalar definitions of parameters (p.*) and a bounded amount of text
+	var keep []string
+	lines := strings.Split(s, "\n")
+	for i := 0; i < len(lines); i++ {
+		l := strings.TrimSpace(lines[i])
+		if strings.HasPrefix(l, "(define-fun p.") || strings.HasPrefix(l, "(define-fun |p.") {
+			v := ""
+			if i+1 < len(lines) {
+				v = strings.TrimSpace(lines[i+1])
+			}
+			keep = append(keep, l+" "+v)
+		}
+	}
+	if len(keep) == 0 {
+		return truncate(s, 1500)
+	}
+	return truncate(strings.Join(keep, "\n"), 3000)
+}
+
+func ledgerKind(gn string) string {
+	k := gn[strings.LastIndex(gn, "/")+1:]
+	if i := strings.Index(k, "#"); i >= 0 {
+		k = k[:i]
+	}
+	return k
+}
